@@ -130,3 +130,20 @@ def reloadSteps : List Bytes := [
   b!"logger.Infof(...)" ]
 
 end Spec
+
+namespace Spec
+open Go
+
+/-- C16/C17: the op switch of `runSizeLimiter` that `Model.Limiter`'s opAdd / opAccessTime / opFlush
+    mirror (the limiter stream drives these through value-level wrappers, so the shape is pinned) -/
+def limiterOpSwitch : List Bytes := [b!"switch io.op {case opAdd:if (io.accessedItem!=nil) {s.withAccessTime[io.name]=*io.accessedItem;s.sizeBytes+=int64((io.accessedItem.sizeKilobytes*1024))}|case opAccessTime:if (io.accessedItem!=nil) {s.withAccessTime[io.name]=*io.accessedItem};if (io.storableAccessedItem!=nil) {s.storableAccessedItems[io.name]=*io.storableAccessedItem}|case opFlushStorable:s.flushStorableAccessTimes()}"]
+
+/-- C16: what a finished fill reports to the limiter: nothing on revalidation; the name and size
+    handed in by `finishAndNotify` (the writer's CURRENT key, after any ChangeKey) -/
+def closeFinisherShape : List Bytes := [b!"params:name,size", b!"if revalidate {return }", b!"ai:={accessTime:accessTime((time.Now().Unix()-s.startedAt)),sizeKilobytes:uint32((size/1024))}", b!"s.itemsChan<-&{op:opAdd,name:itemName(name),accessedItem:&ai}"]
+def finishAndNotifyShape : List Bytes := [b!"if (sw.closeFinisher!=nil) {sw.closeFinisher(sw.key.FsName(),sw.writtenSize)}", b!"sw.notify()"]
+
+/-- C17: every Get books the access under the key that was found -/
+def setAccessTimeShape : List Bytes := [b!"name:=itemName(key.FsName())", b!"item:={accessTime((time.Now().Unix()-s.startedAt)),uint32((size/1024))}", b!"storableItem:={time.Now().Unix(),uint32((size/1024))}", b!"s.itemsChan<-&{op:opAccessTime,name:name,accessedItem:&item,storableAccessedItem:&storableItem}"]
+
+end Spec
